@@ -23,7 +23,7 @@
    * [subscope_k] is parameterised by the key function so that the pinned
      tree's key writer can be run through the same model (Refuted/). *)
 From Coq Require Import ZArith List Bool.
-From Tally Require Import Base.Obs Gen.Params Model.KeyGen.
+From Tally Require Import Base.ObsCore Gen.Params Model.KeyGen.
 Import ListNotations.
 Open Scope Z_scope.
 
